@@ -7,6 +7,9 @@ Engines
   * correspondence (b): the same scripts -> real emit() -> g++ against the mock core -> event trace for N passes,
     projected on markers / printed values / polls / ticks / handler output / configuration events, compared with
     the model's exec (coq/Lang/Emit.v);
+  * break placement matrix (text level, no model): for every chain of header lines (if / else / elif / try / except variants /
+    for / while / nested while True) around a `break`, in the main loop and at the top level: parse() must raise ValueError iff no
+    inner loop encloses the break, and no BreakStmt of an accepted Program may sit outside every inner loop node;
   * property oracle: the temporal monitors (configured-before-use, one mode per pin, housekeeping exactly once at
     the head of every pass, no pass cut short) evaluated on the REAL traces twice - by the extracted Gallina
     predicates (cbu / one_mode / hk_ok) and by an independent Python re-implementation (they must agree) - and the
@@ -22,7 +25,7 @@ from harness import fw
 META = {
     "id": "C05",
     "technique": "Coq proof (induction over item lists, nested statements and the number of passes) about a Gallina model of parse()'s setup/loop split and emit()'s configuration hoisting + extracted-model correspondence with the real Program IR and with compiled firmware traces + extracted temporal monitors run on real traces + CPython reference traces",
-    "level_text": "Theorems C05_* (coq/Props/C05.v) are proved for all item lists, all input histories and all N>=0 about the model coq/Lang/Split.v + coq/Lang/Emit.v (split, poll/tick injection, break guard, global/local variable lifetime, configuration hoisting with emit()'s dedup sets, the binding each command resolves to when a device name is bound several times); the model is run against the real parse() IR and against the emitted C++ compiled with g++ and executed under the mock Arduino core; the proved monitors are extracted and evaluated on the real traces.",
+    "level_text": "Theorems C05_* (coq/Props/C05.v) are proved for all item lists, all input histories and all N>=0 about the model coq/Lang/Split.v + coq/Lang/Emit.v (split, poll/tick injection, break guard through if / else / try / except / for / while nesting, global/local variable lifetime incl. names promoted out of if-else / for / while / try-except blocks, configuration hoisting with emit()'s dedup sets, the binding each command resolves to when a device name is bound several times); the model is run against the real parse() IR and against the emitted C++ compiled with g++ and executed under the mock Arduino core; the proved monitors are extracted and evaluated on the real traces.",
     "level_note": "Trusted: Coq kernel, extraction, OCaml driver, mock Arduino core (definition of 'device'), CPython 3.12 + harness/impl/pyrun_impl.py (definition of 'what Python does'), the script renderer and trace abstraction in harness/props/c05.py. The theorems are about the model; the correspondence bounds its distance from parser.py / emitter.py on the generated fragment.",
     "design_ref": "DESIGN.md section 4 C05, Appendix B.1, B.5",
 }
@@ -75,10 +78,64 @@ def enc_stmt(s):
     if t == "break":
         return [5]
     if t == "if":
+        if len(s) > 3 and s[3]:
+            return [6, s[1], [enc_stmt(x) for x in s[2]], [enc_stmt(x) for x in s[3]]]
         return [6, s[1], [enc_stmt(x) for x in s[2]]]
     if t == "for":
         return [7, s[1], [enc_stmt(x) for x in s[2]]]
+    if t == "while":
+        return [8, s[1], [enc_stmt(x) for x in s[2]]]
+    if t == "try":
+        return [9, [enc_stmt(x) for x in s[1]], [enc_stmt(x) for x in s[2]]]
     raise ValueError(s)
+
+
+def sub_blocks(s):
+    """the nested statement lists of a compound statement (textual order)"""
+    t = s[0]
+    if t == "if":
+        return [s[2]] + ([s[3]] if len(s) > 3 and s[3] else [])
+    if t in ("for", "while"):
+        return [s[2]]
+    if t == "try":
+        return [s[1], s[2]]
+    return []
+
+
+def flatten_seq(stmts):
+    """("seq", [..]) groups (statements the generator keeps adjacent) -> plain statement lists, recursively"""
+    out = []
+    for s in stmts:
+        if s[0] == "seq":
+            out.extend(flatten_seq(s[1]))
+        elif s[0] == "if":
+            out.append(("if", s[1], flatten_seq(s[2])) + ((flatten_seq(s[3]),) if len(s) > 3 and s[3] else ()))
+        elif s[0] in ("for", "while"):
+            out.append((s[0], s[1], flatten_seq(s[2])))
+        elif s[0] == "try":
+            out.append(("try", flatten_seq(s[1]), flatten_seq(s[2])))
+        else:
+            out.append(s)
+    return out
+
+
+def bad_breaks(stmts, ld=0):
+    """number of `break` statements whose innermost enclosing loop is not an inner for / while (ld = inner loop depth):
+    at the top level / in a function they are outside any loop, in the body of the main `while True:` they would leave it"""
+    n = 0
+    for s in stmts:
+        if s[0] == "break":
+            n += 1 if ld == 0 else 0
+        elif s[0] in ("for", "while"):
+            n += bad_breaks(s[2], ld + 1)
+        else:
+            for b in sub_blocks(s):
+                n += bad_breaks(b, ld)
+    return n
+
+
+def must_reject(prog):
+    return sum(bad_breaks([it[1]] if it[0] == "stmt" else it[-1]) for it in prog["items"]) > 0
 
 
 def enc_item(it):
@@ -165,6 +222,8 @@ def render_stmt(s, ind, prog, out):
         _, x, e = s
         if e[0] == "const":
             out.append(f"{pad}{x} = {e[1]}")
+        elif e[1] == x and prog.get("augmented") and (len(out) + e[2]) % 3 == 0:
+            out.append(f"{pad}{x} += {e[2]}" if e[2] >= 0 else f"{pad}{x} -= {-e[2]}")
         elif e[2] >= 0:
             out.append(f"{pad}{x} = {e[1]} + {e[2]}")
         else:
@@ -177,6 +236,21 @@ def render_stmt(s, ind, prog, out):
         out.append(f"{pad}break")
     elif t == "if":
         out.append(f"{pad}if {s[1]}:")
+        for x in s[2]:
+            render_stmt(x, ind + 1, prog, out)
+        if len(s) > 3 and s[3]:
+            out.append(f"{pad}else:")
+            for x in s[3]:
+                render_stmt(x, ind + 1, prog, out)
+    elif t == "while":
+        out.append(f"{pad}while {s[1]}:")
+        for x in s[2]:
+            render_stmt(x, ind + 1, prog, out)
+    elif t == "try":
+        out.append(f"{pad}try:")
+        for x in s[1]:
+            render_stmt(x, ind + 1, prog, out)
+        out.append(f"{pad}except:")
         for x in s[2]:
             render_stmt(x, ind + 1, prog, out)
     elif t == "for":
@@ -235,8 +309,8 @@ def render(prog, rng=None):
 def walk_stmts(stmts):
     for s in stmts:
         yield s
-        if s[0] in ("if", "for"):
-            yield from walk_stmts(s[2])
+        for blk in sub_blocks(s):
+            yield from walk_stmts(blk)
 
 
 def all_stmts(prog):
@@ -434,6 +508,7 @@ def gen_program(rng, cls, force=None):
                 merged.append(("set", x, ("add", rng.choice(assigned), rng.randint(-2, 3))))
 
     loop_locals = []
+    while_counters = []
 
     def block(depth, in_loop, allow_break):
         """a nested block over already-assigned names"""
@@ -455,12 +530,40 @@ def gen_program(rng, cls, force=None):
                 body.append(block(depth + 1, in_loop, allow_break))
         if not body:
             body.append(b.free_mark(mon, allow_core))
-        if rng.random() < 0.5 and flag:
-            return ("if", flag if rng.random() < 0.7 or not assigned else rng.choice(assigned), body)
+
+        def small():
+            return [b.free_mark(mon, allow_core)] + ([("show", mon, rng.choice(assigned))] if assigned and rng.random() < 0.4 else [])
+
+        def brk_form():
+            # a legal break of the enclosing inner loop, bare or behind if / else / try / except lines
+            r = rng.random()
+            if r < 0.35 or not flag:
+                return rng.choice([("break",), ("try", small(), [("break",)]), ("try", [("break",)], small())]) if r < 0.2 or not flag else ("break",)
+            if r < 0.55:
+                return ("if", flag, [("break",)])
+            if r < 0.7:
+                return ("if", flag, small(), [("break",)])
+            if r < 0.8:
+                return ("try", small(), [("if", flag, small(), [("break",)])])
+            if r < 0.9:
+                return ("try", [("if", flag, [("break",)])], small())
+            return ("try", small(), [("break",)])
+
+        r = rng.random()
+        if r < 0.4 and flag:
+            cond = flag if rng.random() < 0.7 or not assigned else rng.choice(assigned)
+            if rng.random() < 0.4:
+                return ("if", cond, body, small())
+            return ("if", cond, body)
+        if r < 0.52:
+            return ("try", body, small())
         if allow_break and rng.random() < 0.6:
-            pos = rng.randint(0, len(body))
-            brk = ("break",) if rng.random() < 0.5 or not flag else ("if", flag, [("break",)])
-            body.insert(pos, brk)
+            body.insert(rng.randint(0, len(body)), brk_form())
+        if r < 0.7:
+            # `while wc:` with its own counter: declared at setup depth 0, set right before the loop, decremented first thing
+            wc = f"wc{len(while_counters)}"
+            while_counters.append(wc)
+            return ("seq", [("set", wc, ("const", rng.randint(0, 3))), ("while", wc, [("set", wc, ("add", wc, -1))] + body)])
         return ("for", rng.randint(0, 3), body)
 
     if use_nested:
@@ -589,6 +692,7 @@ def gen_program(rng, cls, force=None):
                 extra_loop_decls.append(d)
             if usable_kind(k):
                 extra_loop_uses.append(b.use_kind(n_, k))
+    merged[:] = flatten_seq(merged)
     if cls == "serial_late":
         # SerialMonitor declared as late as Python allows: right before the first statement that prints
         def mentions_mon(st):
@@ -600,6 +704,7 @@ def gen_program(rng, cls, force=None):
             items.insert(0, mon_decl)
         else:
             merged.insert(first, mon_decl[1])
+    pre_items_mark = len(items)
     for s in merged:
         items.append(("stmt", s))
 
@@ -691,12 +796,349 @@ def gen_program(rng, cls, force=None):
             body2 = loop_body(False)
             sentinels.append(body2[-1][1])
             items.append(("main", body2))
+    # the counters of generated `while wc:` loops are globals declared by depth-0 statements of the prologue
+    items[pre_items_mark:pre_items_mark] = [("stmt", ("set", wc, ("const", 0))) for wc in while_counters]
+    flat = []
+    for it in items:
+        if it[0] == "stmt":
+            flat.extend(("stmt", x) for x in flatten_seq([it[1]]))
+        elif it[0] == "main":
+            flat.append(("main", flatten_seq(it[1])))
+        else:
+            flat.append(it)
+    items = flat
     lcd_order = [it[1][2] for it in items if it[0] == "stmt" and it[1][0] == "decl" and it[1][1] == "Lcd"]
-    prog = {"items": items, "marks": b.marks, "inputs": b.inputs, "lcd_user_row": b.lcd_user_row,
+    prog = {"augmented": True, "items": items, "marks": b.marks, "inputs": b.inputs, "lcd_user_row": b.lcd_user_row,
             "lcd_anim_rows": b.lcd_anim_rows, "lcd_order": lcd_order, "devs": b.devs, "cls": cls,
             "sentinels": sentinels, "starts": starts}
     prog["src"] = render(prog, rng)
     return prog
+
+
+# ----------------------------------------------------------------------------------------------
+# special classes: names first bound inside a compound statement of the prologue, and `break` behind
+# else / try / except lines
+# ----------------------------------------------------------------------------------------------
+PROM_FORMS = ["if", "ifelse", "ifelse_one", "for", "while", "try", "except", "try_both", "for_if", "ifelse_two"]
+SPECIAL_CLASSES = ["prom_" + f for f in PROM_FORMS] + ["prom_mix", "prom_mix", "brk_reject", "brk_reject", "brk_legal", "brk_legal", "brk_top"]
+BRK_WRAPPERS = ["if", "then_else", "else", "try", "except"]
+LOOP_WRAPPERS = ["for", "while"]
+
+
+def gen_special(rng, cls, force=None, quiet=False):
+    """quiet: the prologue neither reads nor re-assigns the block-bound names after their block; the main loop re-assigns each
+    by a plain `x = x + k` before printing it (the shape in which a name that lost its global declaration still compiles)"""
+    b = Builder(rng)
+    mon = "mon"
+    b.used_names.add(mon)
+    b.devs[mon] = ("Serial", [], "setup")
+    items = [("stmt", ("decl", "Serial", mon, [], None, {}))]
+    flag = "flag"
+    pre = [("set", flag, ("const", rng.randint(0, 1))), ("set", "g0", ("const", rng.randint(-2, 5)))]
+    counters = []
+    starts, sentinels = [], []
+
+    def fm():
+        return b.free_mark(mon, False)
+
+    def new_counter():
+        wc = f"wc{len(counters)}"
+        counters.append(wc)
+        return wc
+
+    def wrap(kind, inner, ld_name=None):
+        """inner statements behind one more header line"""
+        if kind == "if":
+            return [("if", flag, inner)]
+        if kind == "then_else":
+            return [("if", flag, inner, [fm()])]
+        if kind == "else":
+            return [("if", flag, [fm()], inner)]
+        if kind == "try":
+            return [("try", inner, [fm()])]
+        if kind == "except":
+            return [("try", [fm()], inner)]
+        if kind == "for":
+            return [("for", rng.randint(1, 3), inner)]
+        if kind == "while":
+            wc = new_counter()
+            return [("set", wc, ("const", rng.randint(1, 2))), ("while", wc, [("set", wc, ("add", wc, -1))] + inner)]
+        raise ValueError(kind)
+
+    body = []
+    promoted = []
+    if cls.startswith("prom_"):
+        forms = [cls[5:]] if cls != "prom_mix" else [rng.choice(PROM_FORMS) for _ in range(rng.randint(2, 3))]
+        if force:
+            forms = list(force)
+        for fi, form in enumerate(forms):
+            v = ["step", "total", "acc", "lvl", "w_q", "Kp"][fi % 6] + (str(fi) if rng.random() < 0.5 else "")
+            if promoted and form not in ("except", "ifelse_two") and rng.random() < 0.25:
+                v = promoted[-1]          # a second block of the prologue binds the same name again
+            c1, c2 = rng.randint(1, 9), rng.randint(10, 19)
+            bind = ("set", v, ("const", c1)) if rng.random() < 0.6 else ("set", v, ("add", "g0", c1))
+            extra = [fm()] if rng.random() < 0.5 else []
+            if form == "if":
+                pre += [("set", flag, ("const", 1)), ("if", flag, extra + [bind])]
+            elif form == "ifelse":
+                pre += [("if", flag, [bind] + extra, [("set", v, ("const", c2))])]
+            elif form == "ifelse_one":
+                # bound in one branch only; the flag is set so that this branch is the one that runs
+                k = rng.randint(0, 1)
+                pre += [("set", flag, ("const", k)), ("if", flag, [bind] if k else extra + [fm()], extra + [fm()] if k else [bind])]
+            elif form == "ifelse_two":
+                v2 = v + "_b"
+                pre += [("if", flag, [bind, ("set", v2, ("const", c1))], [("set", v, ("const", c2)), ("set", v2, ("add", v, 1))])]
+                promoted.append(v2)
+            elif form == "for":
+                pre += [("for", rng.randint(1, 4), extra + [bind])]
+            elif form == "for_if":
+                # two levels below depth 0 (re-initialised at the head of the inner block: outside vars_ok, compared with the model only)
+                pre += [("set", flag, ("const", 1)), ("for", rng.randint(1, 2), [("if", flag, [bind])] + extra)]
+            elif form == "while":
+                wc = new_counter()
+                pre += [("set", wc, ("const", rng.randint(1, 3))), ("while", wc, [("set", wc, ("add", wc, -1))] + extra + [bind])]
+            elif form == "try":
+                pre += [("try", [bind] + extra, [fm()])]
+            elif form == "except":
+                # bound by the handler only: never bound at run time, never read afterwards (only its declaration is observable)
+                pre += [("try", extra + [fm()], [bind])]
+                if rng.random() < 0.5:
+                    pre.append(fm())
+                continue
+            elif form == "try_both":
+                pre += [("try", [bind] + extra, [("set", v, ("const", c2))])]
+            if v not in promoted:
+                promoted.append(v)
+            if rng.random() < 0.3 and not quiet:
+                pre.append(("show", mon, v))
+            if rng.random() < 0.12 and not quiet:
+                pre.append(("set", v, ("add", v, 1)))        # a depth-0 re-assignment later in the prologue
+            if rng.random() < 0.4:
+                pre.append(fm())
+        start = b.mark(mon, "ser")
+        starts.append(start[1])
+        body.append(start)
+        rest = []
+        for v in promoted:
+            r = rng.random() if not quiet else 0.0     # quiet: plain re-assignment first, then the value is printed
+            if r < 0.6:
+                rest.append(("seq", [("set", v, ("add", v, rng.randint(1, 3))), ("show", mon, v)]))
+            elif r < 0.75:
+                rest.append(("seq", [("show", mon, v), ("set", v, ("add", rng.choice(promoted), rng.randint(1, 3)))]))
+            elif r < 0.85:
+                rest.append(("seq", [("if", flag, [("set", v, ("add", v, 2))], [("set", v, ("add", v, 1))]), ("show", mon, v)]))
+            else:
+                rest.append(("show", mon, v))
+        for _ in range(rng.randint(0, 2)):
+            rest.append(fm())
+        rng.shuffle(rest)
+        body += rest
+    else:
+        # `break` behind 1..3 header lines
+        depth = rng.randint(1, 3)
+        chain = [rng.choice(BRK_WRAPPERS) for _ in range(depth)]
+        if force:
+            chain = list(force)
+        if cls == "brk_legal":
+            chain.insert(rng.randint(0, len(chain) - 1) if len(chain) > 1 and rng.random() < 0.7 else 0, rng.choice(LOOP_WRAPPERS))
+        inner = [fm(), ("break",)] if rng.random() < 0.5 else [("break",), fm()]
+        for kind in reversed(chain):
+            inner = wrap(kind, inner)
+            if rng.random() < 0.3:
+                inner = [fm()] + inner
+        if cls == "brk_top":
+            pre += inner
+            inner = []
+        start = b.mark(mon, "ser")
+        starts.append(start[1])
+        body.append(start)
+        body += inner
+        if rng.random() < 0.5:
+            body += [("set", "g0", ("add", "g0", 1)), ("show", mon, "g0")]
+    end = b.mark(mon, "ser")
+    body.append(end)
+    sentinels.append(end[1])
+    pre = [("set", wc, ("const", 0)) for wc in counters] + pre
+    items += [("stmt", x) for x in flatten_seq(pre)]
+    items.append(("main", flatten_seq(body)))
+    prog = {"augmented": not quiet, "items": items, "marks": b.marks, "inputs": b.inputs, "lcd_user_row": {}, "lcd_anim_rows": {},
+            "lcd_order": [], "devs": b.devs, "cls": cls, "sentinels": sentinels, "starts": starts, "promoted": promoted}
+    prog["src"] = render(prog, rng)
+    return prog
+
+
+
+# ----------------------------------------------------------------------------------------------
+# break placement matrix (text level, no model): every chain of header lines the parser has a code path for
+# ----------------------------------------------------------------------------------------------
+MX_PLAIN = ["if", "then_else", "else", "elif", "elif_else", "then_elif", "try", "except", "except_typed", "except_as", "except_second", "try_two"]
+MX_LOOPS = ["for", "while", "while_true"]
+
+
+def mx_wrap(kind, inner, uid):
+    ind = ["    " + ln for ln in inner]
+    w = [f'    mon.write("f{uid}")']
+    if kind == "if":
+        return ["if flag:"] + ind
+    if kind == "then_else":
+        return ["if flag:"] + ind + ["else:"] + w
+    if kind == "else":
+        return ["if flag:"] + w + ["else:"] + ind
+    if kind == "elif":
+        return ["if flag:"] + w + ["elif g0:"] + ind
+    if kind == "then_elif":
+        return ["if flag:"] + ind + ["elif g0:"] + w + ["else:"] + w
+    if kind == "elif_else":
+        return ["if flag:"] + w + ["elif g0:"] + w + ["else:"] + ind
+    if kind == "try":
+        return ["try:"] + ind + ["except:"] + w
+    if kind == "try_two":
+        return ["try:"] + ind + ["except ValueError:"] + w + ["except:"] + w
+    if kind == "except":
+        return ["try:"] + w + ["except:"] + ind
+    if kind == "except_typed":
+        return ["try:"] + w + ["except Exception:"] + ind
+    if kind == "except_as":
+        return ["try:"] + w + ["except ValueError as err:"] + ind
+    if kind == "except_second":
+        return ["try:"] + w + ["except ValueError:"] + w + ["except Exception:"] + ind
+    if kind == "for":
+        return [f"for _k{uid} in range(2):"] + ind
+    if kind == "while":
+        return ["while g0:"] + ind
+    if kind == "while_true":
+        return ["while True:"] + ind
+    raise ValueError(kind)
+
+
+def mx_script(chain, where):
+    inner = ['mon.write("b0")', "break"]
+    for i, kind in enumerate(reversed(chain)):
+        inner = mx_wrap(kind, inner, i)
+    head = ["mon = SerialMonitor(9600)", "flag = 1", "g0 = 2"]
+    if where == "main":
+        lines = head + ["while True:", '    mon.write("s")'] + ["    " + ln for ln in inner] + ['    mon.write("e")']
+    else:
+        lines = head + inner + ["while True:", '    mon.write("s")']
+    return HEADER + "\n".join(lines) + "\n"
+
+
+def ir_breaks_outside_loops(nodes, in_loop=False):
+    """BreakStmt nodes of a dumped IR list that no WhileLoop / ForRangeLoop node encloses"""
+    n = 0
+    for x in nodes:
+        if not isinstance(x, dict):
+            continue
+        c = x.get("_")
+        if c == "BreakStmt":
+            n += 0 if in_loop else 1
+            continue
+        inner = in_loop or c in ("WhileLoop", "ForRangeLoop")
+        for k, v in x.items():
+            if isinstance(v, list):
+                n += ir_breaks_outside_loops(v, inner)
+    return n
+
+
+def break_matrix(ctx, stats, thorough):
+    rng = ctx.rng
+    kinds = MX_PLAIN + MX_LOOPS
+    chains = [[a] for a in kinds] + [[a, c] for a in kinds for c in kinds]
+    triples = [[a, c, d] for a in kinds for c in kinds for d in kinds]
+    chains += triples if thorough else rng.sample(triples, 150)
+    cases = [(ch, where) for ch in chains for where in (("main", "top") if len(ch) < 3 or thorough else ("main",))]
+    srcs = [mx_script(ch, where) for ch, where in cases]
+    res = []
+    for i in range(0, len(srcs), 400):
+        res += C.run_impl("c05_impl.py", {"sources": srcs[i:i + 400], "timeout": 20, "emit": False}, timeout=600)
+    dist = {"must_reject": 0, "legal": 0, "rejected": 0, "accepted": 0}
+    for (ch, where), src, r in zip(cases, srcs, res):
+        # a column-0 `while True:` IS the main loop (chain written at the top level starting with while_true)
+        legal = any(k in MX_LOOPS for k in (ch[1:] if where == "top" and ch[0] == "while_true" else ch))
+        dist["legal" if legal else "must_reject"] += 1
+        dist["accepted" if r["ok"] else "rejected"] += 1
+        if not legal:
+            if r["ok"] or r["exc"] != "ValueError":
+                ctx.fail("a `break` that would leave the main loop / is outside any loop was not rejected with ValueError (header chain: %s, %s)" % (" > ".join(ch), where),
+                         {"src": src}, "ValueError", "accepted" if r["ok"] else r["exc"], key="break-accepted")
+        else:
+            if not r["ok"]:
+                ctx.disagree("parse() rejected a `break` of an inner for / while loop (header chain: %s, %s)" % (" > ".join(ch), where), src, "accepted", r.get("exc"))
+            else:
+                n = ir_breaks_outside_loops(r["loop"]) + ir_breaks_outside_loops(r["setup"])
+                if n:
+                    ctx.fail("Program IR holds a BreakStmt that no inner loop node encloses (it would be emitted at loop() / setup() level)",
+                             {"src": src}, 0, n, key="break-accepted")
+    stats["break_matrix"] = dict(dist, chains=len(chains), scripts=len(cases))
+    return len(cases)
+
+
+
+# ----------------------------------------------------------------------------------------------
+# persistence templates (text level, no model): shapes outside the abstract program language whose values must carry over
+# from the prologue into the passes and from pass to pass exactly as under CPython
+# ----------------------------------------------------------------------------------------------
+PERSIST_TEMPLATES = {
+    "elif_bound": "mode = {a}\nif mode == 1:\n    step = {c1}\nelif mode == 2:\n    step = {c2}\nelse:\n    step = {c3}\n"
+                  "while True:\n    step = step + {k}\n    mon.write(step)\n",
+    "helper_reads_global": "mode = {a}\nif mode == 1:\n    step = {c1}\nelse:\n    step = {c2}\ndef show():\n    mon.write(step)\n"
+                           "while True:\n    step = step + {k}\n    show()\n",
+    "for_var_value": "for i in range({n}):\n    last = i * 2\nmon.write(last)\nwhile True:\n    last = last + {k}\n    mon.write(last)\n",
+    "while_cond": "n = {n}\nwhile n > 0:\n    n -= 1\n    acc = n + {c1}\nwhile True:\n    acc = acc + {k}\n    n = n + 1\n    mon.write(acc)\n    mon.write(n)\n",
+    "augmented": "flag = {a}\nif flag > 0:\n    total = {c1}\n    step = {k}\nelse:\n    total = {c2}\n    step = {k}\n"
+                 "while True:\n    total += step\n    step = step + 1\n    mon.write(total)\n",
+    "nested_try_in_if": "flag = {a}\nif flag > 0:\n    try:\n        lvl = {c1}\n    except:\n        lvl = {c2}\nelse:\n    lvl = {c3}\n"
+                        "while True:\n    lvl = lvl + {k}\n    mon.write(lvl)\n",
+    "helper_after_for": "for j in range({n}):\n    base = {c1}\ndef bump():\n    mon.write(base + 1)\nwhile True:\n    base = base + {k}\n    bump()\n    mon.write(base)\n",
+}
+
+
+def persistence_templates(ctx, stats, thorough):
+    rng = ctx.rng
+    cases = []
+    for name, t in PERSIST_TEMPLATES.items():
+        for _ in range(10 if thorough else 2):
+            cases.append((name, HEADER + "mon = SerialMonitor(9600)\n" + t.format(
+                a=rng.randint(0, 3), c1=rng.randint(1, 9), c2=rng.randint(10, 19), c3=rng.randint(20, 29), k=rng.randint(1, 4), n=rng.randint(1, 4))))
+    ts = fw.transpile_many([src for _, src in cases])
+    jobs, idx = [], {}
+    for i, t in enumerate(ts):
+        if t["ok"]:
+            idx[i] = len(jobs)
+            jobs.append({"cpp": t["cpp"], "input": "", "loops": NMAX})
+    outs = fw.run_sketches(jobs)
+    pys = fw.pyrun_many([{"src": src, "input": "", "loops": NMAX} for _, src in cases])
+    n_ok = 0
+    for i, ((name, src), t, po) in enumerate(zip(cases, ts, pys)):
+        if not t["ok"]:
+            ctx.disagree(f"persistence template {name}: parse()/emit() rejected the script", src, "accepted", t.get("exc"))
+            continue
+        o = outs[idx[i]]
+        if not o["compiled"] or o["rc"] != 0:
+            ctx.disagree(f"persistence template {name}: the sketch did not compile / run under the mock", src, None, (o["compile_log"] or o["stderr"])[-400:])
+            continue
+        if po["exc"] is not None:
+            ctx.disagree(f"persistence template {name}: CPython raised (template bug)", src, None, po["exc"])
+            continue
+        f_obs, p_obs = _generic_obs(o["events"], False), _generic_obs(po["events"], True)
+        if f_obs != p_obs:
+            ctx.fail(f"firmware and CPython differ on the printed values (template {name}: a name bound inside a block of the prologue, N passes = {NMAX}, every prefix compared)",
+                     {"src": src, "input": ""}, {"cpython": p_obs}, {"firmware": f_obs}, key="trace-vs-python")
+        else:
+            n_ok += 1
+    stats["persistence_templates"] = {"scripts": len(cases), "same_as_cpython": n_ok, "templates": sorted(PERSIST_TEMPLATES)}
+    return len(cases)
+
+
+
+def stmt_kind_count(progs):
+    out = {}
+    for p in progs:
+        for st in all_stmts(p):
+            k = st[0] + ("_else" if st[0] == "if" and len(st) > 3 and st[3] else "")
+            out[k] = out.get(k, 0) + 1
+    return out
 
 
 def input_script(prog):
@@ -740,9 +1182,13 @@ def canon_model_ir(nodes, prog):
         elif t == 6:
             out.append(["break"])
         elif t == 7:
-            out.append(["if", C.wstr(n[1]), canon_model_ir(n[2], prog)])
+            out.append(["if", C.wstr(n[1]), canon_model_ir(n[2], prog), canon_model_ir(n[3], prog)])
         elif t == 8:
             out.append(["for", n[1], canon_model_ir(n[2], prog)])
+        elif t == 11:
+            out.append(["while", C.wstr(n[1]), canon_model_ir(n[2], prog)])
+        elif t == 12:
+            out.append(["try", canon_model_ir(n[1], prog), canon_model_ir(n[2], prog)])
         elif t == 9:
             out.append(["poll", C.wstr(n[1])])
         elif t == 10:
@@ -792,10 +1238,18 @@ def canon_real_ir(nodes, prog):
         elif c == "BreakStmt":
             out.append(["break"])
         elif c == "IfStatement":
-            if len(n["branches"]) == 1 and not n["else_body"]:
-                out.append(["if", n["branches"][0]["condition"], canon_real_ir(n["branches"][0]["body"], prog)])
+            if len(n["branches"]) == 1:
+                out.append(["if", n["branches"][0]["condition"], canon_real_ir(n["branches"][0]["body"], prog),
+                            canon_real_ir(n["else_body"], prog)])
             else:
                 out.append(["?if", len(n["branches"])])
+        elif c == "WhileLoop":
+            out.append(["while", n["condition"], canon_real_ir(n["body"], prog)])
+        elif c == "TryStatement":
+            if len(n["handlers"]) == 1:
+                out.append(["try", canon_real_ir(n["try_body"], prog), canon_real_ir(n["handlers"][0]["body"], prog)])
+            else:
+                out.append(["?try", len(n["handlers"])])
         elif c == "ForRangeLoop":
             out.append(["for", n["count"], canon_real_ir(n["body"], prog)])
         elif c == "ButtonPoll":
@@ -1097,9 +1551,8 @@ def check_batch(ctx, progs, stats, known_mode=False):
                 stats["only_new_guard"] = stats.get("only_new_guard", 0) + 1
         stats["verdicts"][("accepted" if r["ok"] else r["exc"])] = stats["verdicts"].get(("accepted" if r["ok"] else r["exc"]), 0) + 1
         # ---- break guard: parse() verdict
-        has_break_main = p["cls"] in ("break_main", "break_main_if")
-        has_break_top = p["cls"] == "break_top"
-        if has_break_main or has_break_top:
+        if must_reject(p):
+            stats["must_reject"] = stats.get("must_reject", 0) + 1
             if r["ok"] or r["exc"] != "ValueError":
                 rec["fails"].append("break")
                 if not known_mode:
@@ -1115,6 +1568,13 @@ def check_batch(ctx, progs, stats, known_mode=False):
             ctx.disagree("break guard: model transl_ok vs parse() verdict", p["src"], bool(mi[1]), r.get("exc", "accepted"))
         if not r["ok"]:
             continue
+        # ---- no BreakStmt of the IR may sit outside every inner loop node (oracle on the real Program, no guard)
+        nb = ir_breaks_outside_loops(r["loop"]) + ir_breaks_outside_loops(r["setup"])
+        if nb:
+            rec["fails"].append("break")
+            if not known_mode:
+                ctx.fail("Program IR holds a BreakStmt that no inner loop node encloses (it would be emitted at loop() / setup() level)",
+                         {"src": p["src"]}, 0, nb, key="break-accepted")
         # ---- correspondence (a): IR placement
         if mi is not None:
             ms, ml = canon_model_ir(mi[2], p), canon_model_ir(mi[3], p)
@@ -1259,6 +1719,8 @@ def check_batch(ctx, progs, stats, known_mode=False):
             inside = g["transl_ok"] and g["vars_ok"] and g["one_main_last"]
             if inside and not g["vars_persist"]:
                 stats["inside_with_loop_locals"] = stats.get("inside_with_loop_locals", 0) + 1
+            if inside and p.get("promoted"):
+                stats["inside_with_block_bound_names"] = stats.get("inside_with_block_bound_names", 0) + 1
             if po["exc"] is not None:
                 stats["py_exc"] += 1
                 if inside and not known_mode:
@@ -1442,12 +1904,25 @@ def run(ctx: C.Ctx):
     for a, c in pairs:
         forced.append({"kinds": [a, c], "shape": rng.choice(["pre_loop", "pre_pre", "loop_loop"]), "pins": "rand", "use": True})
     progs += [gen("rebind", force=f) for f in forced]
+    # ---- names bound inside prologue blocks (every form alone, then mixed), breaks behind else / try / except lines
+    specials = [("prom_" + f, [f]) for f in PROM_FORMS]
+    progs += [gen_special(rng, "prom_" + f, force=[f], quiet=True) for f in PROM_FORMS]
+    specials += [(SPECIAL_CLASSES[i % len(SPECIAL_CLASSES)], None) for i in range(170 if thorough else 17)]
+    chains = [[a] for a in BRK_WRAPPERS] + [[a, c] for a in BRK_WRAPPERS for c in BRK_WRAPPERS]
+    if thorough:
+        chains += [[a, c, d] for a in BRK_WRAPPERS for c in BRK_WRAPPERS for d in BRK_WRAPPERS]
+    specials += [("brk_reject", ch) for ch in chains]
+    specials += [("brk_legal", ch) for ch in (chains if thorough else rng.sample(chains, 8))]
+    progs += [gen_special(rng, c, force=f) for c, f in specials]
     cls_count = {}
     for p in progs:
         cls_count[p["cls"]] = cls_count.get(p["cls"], 0) + 1
     records = []
     for i in range(0, len(progs), 100):
         records += check_batch(ctx, progs[i:i + 100], stats)
+
+    n_matrix = break_matrix(ctx, stats, thorough)
+    n_matrix += persistence_templates(ctx, stats, thorough)
 
     # ---- N really is a prefix: run a few sketches with N = 0, 1, 2 and compare with the N = 3 trace
     prefix_checked = 0
@@ -1497,9 +1972,9 @@ def run(ctx: C.Ctx):
 
     n_inside = stats["in_guard_python"]
     ctx.coverage.update({
-        "evaluations": len(progs) + stats["monitor_runs"] + prefix_checked,
+        "evaluations": len(progs) + stats["monitor_runs"] + prefix_checked + n_matrix,
         "distinct_nontrivial": len({p["src"] for p in progs if any(it[0] == "main" for it in p["items"]) or p["cls"] == "nomain"}),
-        "rule": "seeded structured scripts (classes below); every script goes through real parse() (IR compared node by node with the model), real emit() + g++ + mock core for 3 passes (trace compared with the model's exec; extracted and Python monitors on the real trace; markers/values compared with CPython for every N in 0..3 by prefix, the prefix property itself checked on a sample). non-trivial = distinct script text.",
+        "rule": "seeded structured scripts (classes below; nested blocks are if / if-else / for / while / try-except; classes prom_*: names first bound inside an if / else / for / while / try / except block of the prologue and re-assigned by plain assignments in `while True:`; brk_*: `break` behind every chain of if / else / try / except lines up to depth 2 (3 in the thorough tier), with and without an inner for / while; plus the text-level break placement matrix incl. elif / typed and multiple handlers / nested `while True:`); every script goes through real parse() (IR compared node by node with the model), real emit() + g++ + mock core for 3 passes (trace compared with the model's exec; extracted and Python monitors on the real trace; markers/values compared with CPython for every N in 0..3 by prefix, the prefix property itself checked on a sample). non-trivial = distinct script text.",
         "samples": [progs[1]["src"], progs[4]["src"]],
         "distribution": {"classes": cls_count, "parse_verdicts": stats["verdicts"], "ir_nodes_compared": stats["ir_nodes"],
                          "sketches_run": stats["sketches"], "sketches_not_compiled": stats["not_compiled"],
@@ -1511,6 +1986,11 @@ def run(ctx: C.Ctx):
                          "cpython_exceptions": stats["py_exc"], "prefix_runs": prefix_checked,
                          "motor_pins_checked_for_safe_stop": stats.get("motor_pins_checked", 0),
                          "compared_with_cpython_having_loop_locals": stats.get("inside_with_loop_locals", 0),
+                         "compared_with_cpython_having_names_bound_inside_prologue_blocks": stats.get("inside_with_block_bound_names", 0),
+                         "scripts_that_must_be_rejected_for_a_break": stats.get("must_reject", 0),
+                         "break_placement_matrix": stats.get("break_matrix", {}),
+                         "persistence_templates": stats.get("persistence_templates", {}),
+                         "statement_kinds": stmt_kind_count(progs),
                          "scripts_with_comments": sum(1 for p in progs if p.get("comments", (0, 0)) != (0, 0)),
                          "main_loop_headers_with_trailing_comment": sum(p.get("comments", (0, 0))[0] for p in progs),
                          "comment_only_lines": sum(p.get("comments", (0, 0))[1] for p in progs),
@@ -1527,7 +2007,10 @@ def run(ctx: C.Ctx):
                        "the order in which the emitted ButtonPoll stores __redu_button_value_<b> and calls the on_click handler (changed by /repo 97f26e6) is not observable in this model's event vocabulary (is_pressed() reads a cached sample and is no pin access; generated handlers only print markers): that clause is C15's",
                        "the value a DCMotor is stopped with / a Servo is first written with (the model has 'a write'; the harness checks on the real trace that the first write on every motor pin is a 0-write inside setup())",
                        "names promoted out of a block inside setup() below depth 0 are re-initialised at the head of the block on every execution of it (modelled; outside vars_ok; a C01 matter, not a clause of C05)",
-                       "top-level `while <cond>:` and nested `while` loops, `try`, `elif/else`, functions other than marker-only button handlers",
+                       "`elif` chains, several `except` clauses, typed handlers (`except E as e:`), a nested `while True:`: not in the Gallina model; they are in the text-level break placement matrix (parse() verdict and BreakStmt placement in the real Program for every chain of header lines up to depth 2, depth 3 sampled / exhaustive in the thorough tier)",
+                       "`except` handlers never run (nothing in the generated fragment raises, in CPython as in C++): the model has them for the break guard, for promotion and for the IR only; exception semantics themselves are outside C05",
+                       "a nested `while x:` is modelled with 64 iterations of fuel (a run that needs more sets the outside-the-model flag; generated loops count down from <= 3)",
+                       "`continue` (C01/C07), functions other than marker-only button handlers, functions reading globals",
                        "LCD / Buzzer / SerialMonitor declared inside `while True:` (not hoisted kinds; outside the quantifier)",
                        "expression layer (C01-C03): only int literals and `x + literal` are used", "timing: animations use speed_ms=0 so that every tick is observable",
                        "order of several names promoted out of one block (set iteration order, C10): generated blocks introduce at most one name"],
